@@ -7,8 +7,11 @@ package kv
 
 import (
 	"bytes"
+	"encoding/base64"
 	"time"
 )
+
+func symLastKDFInput() []byte { panic("intrinsic") }
 
 var vC18Lengths = []int{0, 1, 15, 16, 17, 31, 32, 33, 47, 48, 63, 64, 65, 72}
 
@@ -149,5 +152,32 @@ func VerifH_C18_wrapping() {
 		ok, err := r2.Get(vCtx, "k", &v)
 		symAssert(err != nil || !ok, "undecrypted-node-does-not-yield-data")
 	}
+	symReach("end")
+}
+
+// H18e: the key comes from the whole passphrase as it was when the encryptor
+// was made: (1) the key-derivation function receives the base64 text of all
+// of its bytes (zero bytes included), (2) what the caller does to its buffer
+// afterwards does not change the key: an encryptor made from a copy of the
+// passphrase opens what this one sealed.
+func VerifH_C18_passphrase() {
+	n := 1 + symChoice("passlen", 3)
+	pass := symBytes("pass", n)
+	keep := append([]byte{}, pass...)
+	enc := V1NodeEncryptor(pass)
+	// the caller wipes its buffer
+	for i := range pass {
+		pass[i] = 0
+	}
+	m := symBytes("m", 2)
+	c, err := enc.Encrypt("node/x", m)
+	symAssert(err == nil, "encrypt-ok")
+	// by now a key has been derived (when is the encryptor's business)
+	want := []byte(base64.StdEncoding.EncodeToString(keep))
+	symAssert(bytes.Equal(symLastKDFInput(), want), "key-derivation-takes-the-whole-passphrase")
+	other := V1NodeEncryptor(keep)
+	p, err := other.Decrypt("node/x", c)
+	symAssert(err == nil, "same-passphrase-opens-the-data")
+	symAssert(bytes.Equal(p, m), "same-passphrase-returns-the-data")
 	symReach("end")
 }
